@@ -11,14 +11,27 @@ from astropy import units as u          # noqa: E402
 from astropy.table import Table         # noqa: E402
 
 
+_YES = ['yes', 'Yes', 'YES', 'y', 'Y']
+_NO = ['no', 'No', 'NO', 'n', 'N']
+_conf_count = [0]
+
+
 def write_conf(model_dir, aperture_dependent, logd_step=0.02, version=1, name='verif'):
+    """models.conf.  The yes/no value is written in every spelling the configuration reader accepts (any case,
+    one-letter forms), rotating from call to call, with comment and blank lines and varying whitespace around '='"""
+    _conf_count[0] += 1
+    k = _conf_count[0]
+    word = (_YES if aperture_dependent else _NO)[k % 5]
+    eq = [' = ', '=', ' =', '= ', '  =  '][(k // 5) % 5]
     with open(os.path.join(model_dir, 'models.conf'), 'w') as f:
-        f.write('name = %s\n' % name)
-        f.write('length_subdir = 0\n')
-        f.write('aperture_dependent = %s\n' % ('yes' if aperture_dependent else 'no'))
-        f.write('logd_step = %r\n' % logd_step)
+        f.write('# model package written by the verification harness\n')
+        f.write('name%s%s\n' % (eq, name))
+        f.write('\n')
+        f.write('length_subdir%s0\n' % eq)
+        f.write('aperture_dependent%s%s\n' % (eq, word))
+        f.write('logd_step%s%r\n' % (eq, logd_step))
         if version != 1:
-            f.write('version = %d\n' % version)
+            f.write('version%s%d\n' % (eq, version))
 
 
 def write_convolved(model_dir, fname, wav_um, names, flux, err, apertures_au=None, unit=None):
